@@ -45,8 +45,11 @@ def sigencodeString (r s order : Nat) : Res Bytes := do
   let (rs, ss) ← sigencodeStrings r s order
   .ok (rs ++ ss)
 
-def sigencodeDer (r s : Nat) (_order : Nat) : Res Bytes :=
-  .ok (Der.encodeSequence [Der.encodeInteger r, Der.encodeInteger s])
+/-- `der.encode_sequence(der.encode_integer(r), der.encode_integer(s))` (the order is not used) -/
+def sigencodeDer (r s : Nat) (_order : Nat) : Res Bytes := do
+  let a ← Der.encodeIntegerPy r
+  let b ← Der.encodeIntegerPy s
+  Der.encodeSequencePy [a, b]
 
 /-- the low-S reflection shared by the three canonical encoders: `if s > order // 2: s = order - s`.
 `s` stays an `Int` because `order - s` is computed on Python integers. -/
